@@ -3626,7 +3626,12 @@ void DTDScanner::scanPI()
             {
                 // It must be followed by '>' to be a termination of the target
                 if (fReaderMgr->skippedChar(chCloseAngle))
+                {
+                    // A leading surrogate must not be left unpaired
+                    if (gotLeadingSurrogate)
+                        fScanner->emitError(XMLErrs::Expected2ndSurrogateChar);
                     break;
+                }
             }
 
             // Check for correct surrogate pairs
